@@ -21,7 +21,12 @@ LEVEL_TEXT = (
     "io.RawIOBase read -> readall/readinto dispatch), every explicit raise and every modelled failing operation of "
     "builtins/stdlib (int/float of a str, strict decode/encode in method or constructor spelling, base64, urlsplit/.port, parsedate_to_datetime, timedelta, "
     "next, index, split-unpack, constant index, Optional match, assert, Enum(value), to_bytes, and read(n)/bytearray(n)/"
-    "bytes(n) whose size provably flows unbounded from a text->int conversion of client text) either raises a werkzeug "
+    "bytes(n) whose size provably flows unbounded from a text->int conversion of client text, and the operations that move a "
+    "datetime out of datetime.min..max - astimezone / utctimetuple, + / - a timedelta (also as +=), replace() of a date field, "
+    "timestamp() of a value not provably timezone-aware - where the receiver provably may hold a datetime that a parser built "
+    "from client text (parsedate_to_datetime, strptime, fromisoformat, fromtimestamp; followed through local names, "
+    "conditional expressions, replace / astimezone results, package helpers' returns, parameter binding at every reachable "
+    "call site, and self.<property / cached_property / header_property>)) either raises a werkzeug "
     "HTTPException, or is covered by an enclosing handler on every call path (real exception lattice), or by a guard idiom, "
     "or by a reviewed role. Guard idioms and roles do not match source text: the operand is identified by data flow "
     "(reaching definitions, tuple/list/dict projections, regex group widths, parameter binding to the call sites on the "
@@ -47,7 +52,10 @@ LEVEL_TEXT = (
     "left when it is exhausted (the event is NEED_DATA; the read is "
     "empty). (R7.3) the lenient decoders named by the property keep their fallbacks. Not decided: operations outside "
     "the model (variable-key mapping lookups, attribute errors other than Optional regex matches, sizes whose origin is "
-    "not provably a parsed client integer), termination of library regex engines, resource exhaustion in general."
+    "not provably a parsed client integer; a parsed datetime that reaches an operation through a container, unpacking of a call's result "
+    "or an attribute of another object such as IfRange.date; TypeError from mixing naive and aware datetimes; application-"
+    "supplied datetimes or date strings, e.g. last_modified of is_resource_modified), termination of library regex "
+    "engines, resource exhaustion in general."
 )
 TRUSTED = [
     "CPython ast and the builtin exception class hierarchy",
@@ -152,6 +160,16 @@ def run(ctx: Ctx) -> None:
             flow.site_ast = None
 
     eff.size_hook = size_hook
+
+    def dt_hook(fi, op, recv) -> tuple[bool, bool]:
+        node = flow.node(fi, op)
+        if node is None:
+            return False, False
+        if isinstance(recv, ast.BinOp):
+            return flow.client_dt_arith(fi, recv, node), False
+        return flow.client_datetime(fi, recv, node), flow.aware_datetime(fi, recv, node)
+
+    eff.dt_hook = dt_hook
     esc = eff.escapes(roots)
     for f in eff.reach.values():
         ctx.saw(f)
